@@ -406,6 +406,59 @@ def family(tier):
     return items
 
 
+# the documented positional order of the options (transcribed from the docstrings): callers may pass them by position
+DOC_ORDER = {
+    "incidence_matrix": ["order", "sparse", "index"],
+    "adjacency_matrix": ["order", "sparse", "s", "weighted", "index"],
+    "intersection_profile": ["order", "sparse", "index"],
+    "degree_matrix": ["order", "index"],
+    "laplacian": ["order", "sparse", "rescale_per_node", "index"],
+    "multiorder_laplacian": ["orders", "weights", "sparse", "rescale_per_node", "index"],
+    "normalized_hypergraph_laplacian": ["weighted", "sparse", "index"],
+    "clique_motif_matrix": ["sparse", "index"],
+    "adjacency_tensor": ["order", "normalized", "index"],
+}
+_MENU = {"order": [None, 1, 2], "sparse": [True, False], "index": [False, True], "s": [1, 2], "weighted": [False, True],
+         "rescale_per_node": [False, True], "orders": [[1, 2]], "weights": [[1, 0.5]], "normalized": [True, False]}
+
+
+def calling_convention():
+    """Every option combination, passed by position in the documented order, must give what the keywords give."""
+    import xgi
+
+    H = xgi.Hypergraph({"a": [1, 2], "b": [1, 2], "c": [1, 2, 3], "d": [3, 4], "e": [4]})
+    H.add_node(9)
+    out = []
+    n = 0
+
+    def arr(r):
+        r = r[0] if isinstance(r, tuple) else r
+        return np.asarray(r.toarray() if hasattr(r, "toarray") else r)
+
+    for fn, names in DOC_ORDER.items():
+        f = getattr(xgi, fn)
+        menus = [[v for v in _MENU[p_] if not (fn in ("laplacian", "adjacency_tensor") and p_ == "order" and v is None)] for p_ in names]
+        for vals in itertools.product(*menus):
+            n += 1
+            def call(g):
+                try:
+                    return ("ok", g())
+                except Exception as e:  # noqa: BLE001
+                    return ("raise", type(e).__name__)
+
+            ka, a = call(lambda: f(H, **dict(zip(names, vals))))
+            kb, b = call(lambda: f(H, *vals))
+            if ka == "raise" or kb == "raise":
+                same = (ka, a) == (kb, b)  # a documented refusal (isolated node, ...) must be the same refusal
+            else:
+                same = type(a) is type(b) and arr(a).shape == arr(b).shape and np.allclose(arr(a), arr(b)) and \
+                    (not isinstance(a, tuple) or a[1:] == b[1:])
+            if not same and len(out) < 4:
+                out.append(("calling-convention", f"xgi.{fn}(H, {', '.join(map(repr, vals))}) (options by position in the documented "
+                            f"order {names}) differs from the same options by keyword", {"fn": fn, "vals": [repr(v) for v in vals]}))
+    return n, out
+
+
 def run(tier, ev):
     items = family(tier)
     ev.cov["rule"] = ("all hypergraphs over 3 labels <=3 edges and 4 labels <=2 edges (thorough: 4/<=3, 5/2), each also with "
@@ -419,6 +472,13 @@ def run(tier, ev):
         n += r["n"]
         for mon, msg, tags, spec in r["viols"]:
             viols.append(Violation(PROP, mon, msg, {"check": "c12", "kind": "matrix", "spec": spec, "monitor": mon}, tags))
+    with warnings.catch_warnings():
+        warnings.simplefilter("ignore")
+        nc, cv = calling_convention()
+    n += nc
+    for mon, msg, det in cv:
+        viols.append(Violation(PROP, mon, msg, {"check": "c12", "kind": "calling-convention", "detail": det}, {"function": det["fn"]}))
+    ev.part("calling-convention", calls=nc, functions=list(DOC_ORDER))
     ev.add(states=len(items), transitions=n, evaluations=n, distinct_nontrivial=len(items))
     ev.sample({"spec": items[21][0], "weights": items[21][1]})
     ev.assumptions += ["float tolerance 1e-9; PSD means lambda_min >= -1e-9*max(1,|L|)", "normalised Laplacian judged on "
@@ -427,5 +487,10 @@ def run(tier, ev):
 
 
 def replay(case):
+    if case.get("kind") == "calling-convention":
+        with warnings.catch_warnings():
+            warnings.simplefilter("ignore")
+            _, cv = calling_convention()
+        return [msg for _, msg, det in cv if det["fn"] == case["detail"]["fn"]]
     r = _work((case["spec"], "x"))
     return [f"{m}: {msg}" for m, msg, t, _ in r["viols"] if m == case.get("monitor")]
